@@ -12,9 +12,12 @@ package dbSync
 //vf:job C06 quick VF_C03_Parse k=2 cfg=8..9
 //vf:job C06 thorough VF_C03_Parse k=2 cfg=0..9
 //vf:job C08 quick VF_C03_Parse k=2 cfg=0,3
+//vf:job C08 quick VF_C03_Parse k=2 cfg=0 nl=1..2
+//vf:job C04 quick VF_C03_Parse k=1 cfg=0 nl=1
 //vf:replayE C03 VF_C03_Parse
 //vf:replayE C06 VF_C03_Parse
 //vf:replayE C08 VF_C03_Parse
+//vf:replayE C04 VF_C03_Parse
 //vf:outside C03 scripts of three commands over the full 14-template alphabet (2 744 × picks per configuration: path budget); the thorough tier runs three commands over a 6-template alphabet (select, set, DEL, multi, exec, EVAL)
 //vf:stub C03 metric.GetMetric: a private Metric object; latencymonitor.CalcLatency: no-op (statistics are outside the property)
 //vf:stub C03 the source connection is a reader over the encoded command bytes that parks once they are consumed (a master that goes idle)
@@ -66,6 +69,12 @@ func VF_C03_Parse() {
 		enc, err := redis.EncodeToBytes(redis.ChangeArgsToResp(c.argv[0], c.argv[1:]))
 		if err != nil {
 			vfFail("encode")
+		}
+		// keep-alive newlines a master sends between commands are part of the replication offset
+		if i > 0 {
+			for j := 0; j < vfParam("nl", 0); j++ {
+				stream = append(stream, '\n')
+			}
 		}
 		stream = append(stream, enc...)
 		ends = append(ends, int64(len(stream)))
